@@ -528,4 +528,23 @@ theorem C02_dataSets_entry (L Z : Mat ℝ) (r j : Nat) (hr : r < L.length)
   · intro order μ σ R
     simp [dataSets]
 
+theorem identity3 : (identity 3 : Mat ℝ) = [[1, 0, 0], [0, 1, 0], [0, 0, 1]] := by
+  simp [identity, List.range, List.range.loop, one, zero]
+
+/-- **C02 (fallback = uncorrelated draws, three sources).** When the factor is the identity
+    (no correlation set, or the non-positive-definite fallback) the offsets reach the formula
+    unchanged: entry (r, j) of `matMul I Z` is Z_rj, i.e. X_rj = μ_r + σ_r Z_rj — the samples of the
+    UNCORRELATED model. -/
+theorem C02_fallback_uncorrelated3 (z1 z2 z3 : List ℝ) (h2 : z2.length = z1.length)
+    (h3 : z3.length = z1.length) (r j : Nat) (hr : r < 3) :
+    ((matMul (identity 3) [z1, z2, z3]).getD r []).getD j 0 = (([z1, z2, z3] : Mat ℝ).getD r []).getD j 0 := by
+  have hz : ∀ z ∈ ([z1, z2, z3] : Mat ℝ), z.length = (([z1, z2, z3] : Mat ℝ).getD 0 []).length := by
+    intro z hz
+    simp at hz
+    rcases hz with rfl | rfl | rfl <;> simp [h2, h3]
+  have h := (C02_dataSets_entry (identity 3) [z1, z2, z3] r j (by simp [identity]; exact hr) hz).1
+  rw [h, identity3]
+  have : r = 0 ∨ r = 1 ∨ r = 2 := by omega
+  rcases this with rfl | rfl | rfl <;> simp
+
 end QExPy
